@@ -30,6 +30,7 @@ def run(chk):
     chk.assumptions = ["untyped (literal) indices are not judged", "block pairing inside _meta_* functions is value-level and not decided"]
     e3.run_L1(chk)
     e3.run_I7(chk)
+    e3.run_I9(chk)
     e3.run_L2(chk)
     e3.run_L3(chk)
     e3.run_L4(chk)
@@ -40,9 +41,57 @@ def run(chk):
     e3.run_V1(chk)
 
     e3.run_I5(chk, ("yastn.tensor", "yastn.initialize"))
+    run_B3(chk)
     e3.run_I6(chk, ("yastn.tensor", "yastn.initialize"))
     from . import e10
     e10.run_U(chk, ("yastn.tensor", "yastn.initialize"), floor1=5, floor2=1)
+
+
+def run_B3(chk):
+    """B3: `_join_contiguous_slices(slcs_a, slcs_b)` turns two parallel lists of block slices into pairs of longer slices for the flat
+    kernels (vdot, addition, flip_charges).  Two consecutive entries may be merged only if they are contiguous in *both* data arrays
+    (zero gap); merging across a gap makes the kernel read the elements in the gap -- blocks the other operand does not have -- as
+    part of the common blocks.  The function is interpreted (sa/core/minieval: assignments, for, if, append, return; nothing of the
+    repository is executed) on witness slice lists and compared with the definition."""
+    from ..core.minieval import run_function, CannotEvaluate
+    prog = chk.prog
+    chk.rule("B3", "_join_contiguous_slices merges exactly the runs that are contiguous in both slice lists (interpreted on witnesses)", floor=1)
+    f = prog.func("yastn.tensor._auxiliary", "_join_contiguous_slices")
+
+    def reference(sa_, sb_):
+        if not sa_:
+            return ()
+        out = []
+        ca, cb = sa_[0], sb_[0]
+        for x, y in zip(sa_[1:], sb_[1:]):
+            if ca[1] == x[0] and cb[1] == y[0]:
+                ca, cb = (ca[0], x[1]), (cb[0], y[1])
+            else:
+                out.append((ca, cb))
+                ca, cb = x, y
+        out.append((ca, cb))
+        return tuple(out)
+    W = [((), ()),
+         (((0, 2),), ((3, 5),)),
+         (((0, 2), (2, 4), (4, 7)), ((0, 2), (2, 4), (4, 7))),
+         (((0, 2), (4, 6), (6, 8)), ((0, 2), (4, 6), (6, 8))),          # equal non-zero gaps in both: not contiguous
+         (((0, 2), (2, 4)), ((0, 2), (5, 7))),                          # contiguous in a only
+         (((0, 2), (3, 5)), ((0, 2), (2, 4))),                          # contiguous in b only
+         (((0, 2), (4, 6), (9, 12)), ((1, 3), (5, 7), (10, 13)))]
+    bad = None
+    try:
+        for sa_, sb_ in W:
+            got = run_function(f.node, {f.params[0]: sa_, f.params[1]: sb_})
+            got = tuple(tuple(tuple(p_) for p_ in pr) for pr in got) if got is not None else None
+            if got != reference(sa_, sb_):
+                bad = (sa_, sb_, got, reference(sa_, sb_))
+                break
+    except CannotEvaluate as e:
+        raise AnalysisError(f"_join_contiguous_slices cannot be interpreted on witness slice lists ({e})")
+    chk.verdict("B3", f, f"_join_contiguous_slices on {len(W)} witness pairs of slice lists", True if bad is None else False,
+                f"_join_contiguous_slices({bad[0]}, {bad[1]}) gives {bad[2]}, contiguity in both lists gives {bad[3]}: entries separated by a gap are merged, "
+                f"so vdot / addition read the elements in the gap (a block only one operand has) as part of the common blocks -- wrong values "
+                f"whenever both operands own a private block of equal size between two common ones" if bad else "")
 
 MUTANTS = [
     ("contracted axes of a and b exchanged in the kernel call", "yastn/tensor/_contractions.py", "        data, struct_c, slices_c = _tensordot_nf(a, b, nout_a, nin_a, nin_b, nout_b)", "        data, struct_c, slices_c = _tensordot_nf(a, b, nout_a, nin_b, nin_a, nout_b)", "U4"),
